@@ -241,6 +241,7 @@ func runThorough(c *Ctx, spec *propSpec) {
 		}()
 		spec.run(c2)
 		runDepClosure(c2)
+		runLateGuard(c2)
 	}()
 	v1, v2 := map[string]Verdict{}, map[string]Verdict{}
 	for _, o := range c.R.Obs {
